@@ -79,7 +79,8 @@ static void run_world(rng &r, long long idx, long long nops)
 		w.clients.push_back(cppcms::impl::tcp_cache_factory(ips, ports, l));
 		w.has_l1.push_back(l1);
 	}
-	vclock::now() = 1600000000L;
+	vclock::now() = (idx % 5 == 4) ? 2200000000L : ((idx % 11 == 10) ? 2147483647L - 20 : 1600000000L);    // some worlds live after January 2038
+	if (vclock::now() > 2147483647L) O().count("worlds_after_2038");
 	std::vector<std::string> keys, trigs;
 	int nk = r.range(2, 12);
 	for (int i = 0; i < nk; i++) { std::string k = "key" + std::to_string(i); if (i % 5 == 3) k = (g_odd ? std::string("b\0in", 4) : std::string("b\x01in\xff")) + std::to_string(i); if (i % 7 == 6) { k = r.bytes(r.range(1, 40)); if (!g_odd) for (auto &ch : k) if (!ch) ch = 1; } keys.push_back(k); }
